@@ -451,7 +451,17 @@ def finish(prop, tier, seed, plan, results, known_hits, t0, exit_code, notes, wd
         'wall_s': round(time.time() - t0, 2),
         'violations': violations,
     }
-    if obligations == 0:
+    bounded_ok = [r for r in bounded if r.status == 'pass']
+    if obligations == 0 and bounded_ok:
+        # only bounded stand-ins ran: reported as bounded model checking, never as proof
+        ev['level'] = 'model_checking'
+        allo = [(r.job.name, o['name'], o['desc']) for r in bounded_ok for o in r.obligations]
+        ev['coverage']['evaluations'] = len(allo)
+        ev['coverage']['distinct_nontrivial'] = len({(j, n) for j, n, d in allo if 'discharged by operand widths' not in d})
+        ev['coverage']['rule'] = ('one evaluation = one CBMC assertion (UB obligation, harness-enforced postcondition, unwinding assertion) checked for ALL inputs of the stated bounded class; '
+                                  'non-trivial = not discharged statically by the printer; bounded checks only -- obligations/discharged stay 0 because nothing here is a proof')
+        ev['coverage']['exhaustive'] = False
+    elif obligations == 0:
         # keep the file schema-valid but unmistakably empty
         ev['level'] = 'other'
         ev['coverage']['explanation'] = 'no obligations discharged in this run: ' + '; '.join(notes)[:500]
